@@ -100,6 +100,48 @@ Definition check_image (i : image) : bool :=
   forallb (pass_ok m fpass_before) (i_fpass i) &&
   forallb (pass_ok m bpass_before) (i_bpass i).
 
+(* ---- completeness: every rule object that addRule created is linked where lookups search for it.
+   The rule objects come from the rule hook (offset, direction flags) and are read back from the image
+   (opcode, lengths); `expected places' mirrors the dispatch at the end of addRule. *)
+Record rinfo := mkRI { ri_off : Z; ri_op : Z; ri_chars : Z; ri_dots : Z; ri_nofor : bool; ri_noback : bool }.
+
+Definition is_swap (op : Z) : bool := (op =? CTO_SwapCc) || (op =? CTO_SwapCd) || (op =? CTO_SwapDd).
+Definition is_passrule (r : rinfo) : bool :=
+  (CTO_Context <=? ri_op r) && (ri_op r <=? CTO_Pass4) && negb ((ri_op r =? CTO_Context) && (0 <? ri_chars r)).
+Definition plain (r : rinfo) : bool := negb (is_swap (ri_op r)) && negb (is_passrule r).
+Definition back_len (r : rinfo) : Z := if ri_op r =? CTO_Context then ri_chars r else ri_dots r.
+
+Definition exp_fpass (r : rinfo) : bool := negb (is_swap (ri_op r)) && is_passrule r && negb (ri_nofor r).
+Definition exp_bpass (r : rinfo) : bool := negb (is_swap (ri_op r)) && is_passrule r && negb (ri_noback r).
+Definition exp_fwd (r : rinfo) : bool := plain r && negb (ri_nofor r) && (1 <? ri_chars r).
+Definition exp_char (r : rinfo) : bool :=
+  plain r && negb (ri_nofor r) && (ri_chars r =? 1) && negb ((ri_op r =? CTO_CompDots) || (ri_op r =? CTO_Comp6)).
+Definition exp_back (r : rinfo) : bool := plain r && negb (ri_noback r) && (1 <? back_len r).
+Definition exp_cell (r : rinfo) : bool := plain r && negb (ri_noback r) && (back_len r =? 1) && negb (ri_op r =? CTO_Repeated).
+
+Definition member_map (chains : list (list celem)) : amap :=
+  build_map (map (fun x => mkA (c_off x) 1) (concat chains)).
+Definition is_member (m : amap) (off : Z) : bool :=
+  match find_alloc m off with Some _ => true | None => false end.
+
+Definition rule_linked (mf mb mc md mp mq : amap) (r : rinfo) : bool :=
+  (0 <=? ri_op r) &&
+  (if exp_fwd r then is_member mf (ri_off r) else true) &&
+  (if exp_back r then is_member mb (ri_off r) else true) &&
+  (if exp_char r then is_member mc (ri_off r) else true) &&
+  (if exp_cell r then is_member md (ri_off r) else true) &&
+  (if exp_fpass r then is_member mp (ri_off r) else true) &&
+  (if exp_bpass r then is_member mq (ri_off r) else true).
+
+Definition rules_linked (i : image) (rules : list rinfo) : bool :=
+  let mf := member_map (map snd (i_fwd i)) in
+  let mb := member_map (map snd (i_back i)) in
+  let mc := member_map (map snd (i_chars i)) in
+  let md := member_map (map snd (i_cells i)) in
+  let mp := member_map (map snd (i_fpass i)) in
+  let mq := member_map (map snd (i_bpass i)) in
+  forallb (rule_linked mf mb mc md mp mq) rules.
+
 (* ---- the bump allocator (allocateSpaceInTranslationTable): offsets only ever grow *)
 Record arena := mkAr { ar_used : Z; ar_size : Z; ar_allocs : list alloc }.   (* ar_allocs newest first *)
 
